@@ -300,20 +300,37 @@ theorem first_ew (b : B) (c : Nat) (f : First) (a : Bool) :
       | exact ⟨rfl, eraseWills_idem b⟩
       | exact ⟨by simp only [Bool.not_true, Bool.false_eq_true, ↓reduceIte, h.1], h.2⟩
 
-/-- Every event other than the end of a connection by `stop` produces the same
+/-- the events that can run `stop`, the only reader of a will: the end of a
+connection, and a CONNECT with a supplied client identifier (it ends an existing
+connection of that client first, MQTT-3.1.4-2) -/
+def mayStop : Ev → Bool
+  | .close _ => true
+  | .first _ (.connect req) _ => !req.clientId.isEmpty
+  | _ => false
+
+theorem takeOver_of_not_mayStop (b : B) (c : Nat) (f : First) (a : Bool) (h : mayStop (.first c f a) = false) :
+    takeOver b f a = (b, []) := by
+  rcases Mqtt.Proofs.Connect.takeOver_cases b f a with h0 | ⟨req, rfl, _, _, hne, _⟩
+  · exact h0
+  · simp [mayStop, hne] at h
+
+/-- Every event that does not run `stop` produces the same
 outputs whether or not the sessions hold will messages, and leads to the same
 state up to the will messages. -/
-theorem step_ew (b : B) (e : Ev) (h : ∀ c, e ≠ .close c) :
+theorem step_ew (b : B) (e : Ev) (h : mayStop e = false) :
     (step (eraseWills b) e).2 = (step b e).2 ∧
     eraseWills (step (eraseWills b) e).1 = eraseWills (step b e).1 := by
   cases e with
-  | first c f a => exact first_ew b c f a
+  | first c f a =>
+    rw [Mqtt.Proofs.Connect.step_first_eq, Mqtt.Proofs.Connect.step_first_eq, Mqtt.Proofs.Connect.connect_eq,
+      Mqtt.Proofs.Connect.connect_eq, takeOver_of_not_mayStop b c f a h, takeOver_of_not_mayStop (eraseWills b) c f a h]
+    simpa using first_ew b c f a
   | packet c p =>
     show (packet (eraseWills b) c p).2 = (packet b c p).2 ∧
       eraseWills (packet (eraseWills b) c p).1 = eraseWills (packet b c p).1
     rw [packet_ew]
     exact ⟨rfl, eraseWills_idem _⟩
-  | close c => exact absurd rfl (h c)
+  | close c => simp [mayStop] at h
   | srvPub p =>
     show (srvPub (eraseWills b) p).2 = (srvPub b p).2 ∧
       eraseWills (srvPub (eraseWills b) p).1 = eraseWills (srvPub b p).1
@@ -335,7 +352,7 @@ theorem step_ew (b : B) (e : Ev) (h : ∀ c, e ≠ .close c) :
     exact ⟨rfl, eraseWills_idem { b with topics := (b.topics.unsubscribe f (some cb)).1 }⟩
 
 /-- the same for a whole sequence of such events -/
-theorem run_ew (evs : List Ev) (h : ∀ e ∈ evs, ∀ c, e ≠ .close c) : ∀ b b' : B, eraseWills b' = eraseWills b →
+theorem run_ew (evs : List Ev) (h : ∀ e ∈ evs, mayStop e = false) : ∀ b b' : B, eraseWills b' = eraseWills b →
     (run b' evs).2 = (run b evs).2 ∧ eraseWills (run b' evs).1 = eraseWills (run b evs).1 := by
   induction evs with
   | nil => intro b b' hb; exact ⟨rfl, hb⟩
